@@ -49,8 +49,31 @@ def roots_of(h, tier):
     return [dict(zip(case_names, c)) for c in combos]
 
 
+class patched:
+    """install the harness's environment stubs (symbolic and native runs see the same environment)"""
+
+    def __init__(self, h):
+        self.h = h
+        self.saved = []
+
+    def __enter__(self):
+        for owner, name, value in self.h.patches:
+            self.saved.append((owner, name, owner.__dict__[name] if isinstance(owner, type) and name in owner.__dict__ else getattr(owner, name)))
+            setattr(owner, name, value)
+
+    def __exit__(self, *a):
+        for owner, name, old in reversed(self.saved):
+            setattr(owner, name, old)
+        self.saved = []
+
+
 # ------------------------------------------------------------------------------- native replay
 def native_outcome(h, inputs):
+    with patched(h):
+        return _native_outcome(h, inputs)
+
+
+def _native_outcome(h, inputs):
     """run the harness natively on concrete inputs -> ('ok',None) | ('violation','L<line>') | ('escaped',Type) | ('assume',None)"""
     nd = {k: v for k, v in inputs.items() if k.startswith("nd:")}
     args = {k: copy.deepcopy(v) for k, v in inputs.items() if not k.startswith("nd:")}
@@ -107,6 +130,11 @@ def get_engine(h):
 
 
 def worker_task(task):
+    with patched(harness_by_name(task[0])):
+        return _worker_task(task)
+
+
+def _worker_task(task):
     hname, case, prefixes, budget_paths, budget_s, want_witness, seed = task
     h = harness_by_name(hname)
     res = dict(harness=hname, case=case, stats={}, violations=[], witnesses=[], mismatches=[], sites={}, funcs={},
